@@ -4,11 +4,12 @@ import json
 
 from harness.core import pool, tb
 
-PROOF_MODULE = ["OdeVerif.Proofs.C11", "OdeVerif.Proofs.RefineSingularity"]
-GENERATED = ["PySingularity"]
+PROOF_MODULE = ["OdeVerif.Proofs.C11", "OdeVerif.Proofs.RefineSingularity", "OdeVerif.Proofs.RefineContracts"]
+GENERATED = ["PySingularity", "PyContracts"]
 THEOREMS = ["OdeVerif.C11.negBases_iff_sub", "OdeVerif.C11.dedup_no_loss", "OdeVerif.C11.detect_sound", "OdeVerif.C11.detect_complete",
             "OdeVerif.C11.detect_complete_rel", "OdeVerif.C11.detect_nodup",
-            "OdeVerif.Refine.preorder_negBases", "OdeVerif.Refine.generateSingularityConditions_refines", "OdeVerif.Refine.flattenConditions_refines", "OdeVerif.Refine.filterValidConditions_refines", "OdeVerif.Refine.findSingularities_refines"]
+            "OdeVerif.Refine.preorder_negBases", "OdeVerif.Refine.generateSingularityConditions_refines", "OdeVerif.Refine.flattenConditions_refines", "OdeVerif.Refine.filterValidConditions_refines", "OdeVerif.Refine.findSingularities_refines",
+            "OdeVerif.Refine.isMatrixDefined_refines"]
 LEVEL = "proof"
 
 
